@@ -762,33 +762,11 @@ func (e *Env) call(x *ECall) TV {
 	case "as": // as(iface, T): the dynamic value, meaningful when typeIs(iface, T)
 		v := arg(0)
 		gt := e.exprType(x.Args[1])
-		key := typeKey(gt)
-		fn := "box_" + sanitize(key)
-		if len(fn) > 80 {
-			fn = fmt.Sprintf("box_t%d", c.typeTag(key))
-		}
-		s := c.sortOf(gt)
-		if !c.declared[fn] {
-			c.declared[fn] = true
-			c.emit(fmt.Sprintf("(declare-fun %s (%s) Iface)", fn, s))
-			c.emit(fmt.Sprintf("(declare-fun un%s (Iface) %s)", fn, s))
-			c.emit(fmt.Sprintf("(assert (forall ((v %s)) (! (= (un%s (%s v)) v) :pattern ((%s v)))))", s, fn, fn, fn))
-		}
+		fn := c.boxFn(gt)
 		return TV{T: "(un" + fn + " " + v.T + ")", Ty: gt}
 	case "box": // box(v): v converted to an interface value
 		v := arg(0)
-		key := typeKey(v.Ty)
-		fn := "box_" + sanitize(key)
-		if len(fn) > 80 {
-			fn = fmt.Sprintf("box_t%d", c.typeTag(key))
-		}
-		s := c.sortOf(v.Ty)
-		if !c.declared[fn] {
-			c.declared[fn] = true
-			c.emit(fmt.Sprintf("(declare-fun %s (%s) Iface)", fn, s))
-			c.emit(fmt.Sprintf("(declare-fun un%s (Iface) %s)", fn, s))
-			c.emit(fmt.Sprintf("(assert (forall ((v %s)) (! (= (un%s (%s v)) v) :pattern ((%s v)))))", s, fn, fn, fn))
-		}
+		fn := c.boxFn(v.Ty)
 		return TV{T: "(" + fn + " " + v.T + ")", Ty: types.NewInterfaceType(nil, nil)}
 	case "strlen":
 		return TV{T: "(strlen " + arg(0).T + ")", Ty: types.Typ[types.Int]}
@@ -980,11 +958,7 @@ func (e *Env) lockOf(x *ECall) TV {
 	}
 	for i := 0; i < st.NumFields(); i++ {
 		if st.Field(i).Name() == fs.V {
-			fp := "fp_" + sanitize(fieldComp(el, i)) + "0"
-			if !c.declared[fp] {
-				c.declared[fp] = true
-				c.emit(fmt.Sprintf("(declare-fun %s (Ref) Ref)", fp))
-			}
+			fp := c.fieldPtrFn("fp_"+sanitize(fieldComp(el, i))+"0", []string{"Ref"})
 			return TV{T: "(" + fp + " " + v.T + ")", Ty: types.NewPointer(st.Field(i).Type())}
 		}
 	}
